@@ -65,10 +65,14 @@ func (v *PacketDslVisitorImpl) metaDataDeclarationToMetaData(ctx *gen.MetaDataDe
 	} else if ctx.Type_().DynamicString() != nil {
 		attr = &model.DynamicStringFieldAttribute{}
 	}
+	description := ""
+	if ctx.STRING_LITERAL() != nil { // the documentation string is optional
+		description = ctx.STRING_LITERAL().GetText()
+	}
 	return model.MetaData{
 		Name:        ctx.GetName().GetText(),
 		Attr:        attr,
-		Description: ctx.STRING_LITERAL().GetText(),
+		Description: description,
 		Line:        ctx.GetStart().GetLine(),
 		Column:      ctx.GetStart().GetTokenSource().GetCharPositionInLine(),
 	}
@@ -547,10 +551,14 @@ func (v *PacketDslVisitorImpl) VisitMatchPair(ctx *gen.MatchPairContext) interfa
 // VisitRefMetaDataDeclaration handles reference metadata declarations.
 func (v *PacketDslVisitorImpl) VisitRefMetaDataDeclaration(ctx *gen.RefMetaDataDeclarationContext) interface{} {
 
+	description := ""
+	if ctx.STRING_LITERAL() != nil { // the documentation string is optional
+		description = ctx.STRING_LITERAL().GetText()
+	}
 	return model.MetaData{
 		Name:        ctx.GetName().GetText(),
 		Attr:        v.BinModel.MetaDataMap[ctx.GetTyp().GetText()].Attr,
-		Description: ctx.STRING_LITERAL().GetText(),
+		Description: description,
 		Line:        ctx.GetStart().GetLine(),
 		Column:      ctx.GetStart().GetTokenSource().GetCharPositionInLine(),
 	}
